@@ -165,11 +165,8 @@ type ByteStealer struct {
 }
 
 func (s *ByteStealer) Write(p []byte) (n int, err error) {
-	if nil == s.Data {
-		s.Data = p[0:len(p):len(p)]
-	} else {
-		s.Data = append(s.Data, p...)
-	}
+	// io.Writer must not retain p: a WriterTo may reuse its buffer between calls.
+	s.Data = append(s.Data, p...)
 	return len(p), nil
 }
 
